@@ -556,12 +556,9 @@ func checkC04(c *Ctx) *core.Result {
 		}
 	}
 	need("N2", "TagComment containing a back-tick ⇒ XSS", func(s site) bool {
-		for _, e := range positive(s.extras) {
-			if e == "contains(token:true, '`')" {
-				return s.hasTT && s.tt == tCom
-			}
-		}
-		return false
+		// the back-tick alone decides: no further positive condition on this way
+		pe := positive(s.extras)
+		return s.hasTT && s.tt == tCom && len(pe) == 1 && pe[0] == "contains(token:true, '`')"
 	})
 	for _, kw := range []string{"IF", "XML", "IMPORT", "ENTITY"} {
 		kw := kw
